@@ -177,6 +177,7 @@ type zz9Msg struct {
 	sDone  bool             // S's PUBACK / PUBCOMP was processed
 	sMaybe bool             // the action cut by the crash was an acknowledgement of this message
 	cutPub bool             // the crash cut P's PUBLISH itself: P got no acknowledgement and retransmits
+	reuse  bool             // published after the restart under an identifier P had completed before
 }
 
 type zz9Sub struct {
@@ -423,14 +424,20 @@ func ZZC09Broker() {
 			if m == nil {
 				zzrt.Assume(false)
 			}
-			if zz9Step(st, func() {
+			done := zz9Step(st, func() {
 				P.c.pubrelHandler(&packets.Pubrel{FixHeader: &packets.FixHeader{PacketType: packets.PUBREL, Flags: 2}, PacketID: m.pid, Properties: &packets.Properties{}})
-			}) {
-				m.pubDone = true
-				P.drain()
-				P.wire = nil
-			} else {
-				m.pubDone = true // either way the identifier is no longer "awaiting PUBREL" for sure
+			})
+			// what P saw counts, also when the crash cut the handler: a PUBCOMP that was
+			// handed to the connection ends the exchange for P, which may reuse the identifier
+			P.drain()
+			for _, p := range P.wire {
+				if a, ok := p.(*packets.Pubcomp); ok && a.PacketID == m.pid {
+					m.pubDone = true
+				}
+			}
+			P.wire = nil
+			if done {
+				zzrt.Assert(m.pubDone, "pubrel-answered-with-pubcomp")
 			}
 		}
 	}
@@ -477,6 +484,40 @@ func ZZC09Broker() {
 		zzrt.Yield()
 	}
 	P2.drain()
+	P2.wire = nil
+	// P completes the QoS 2 exchanges it still has open (PUBREL, answered by PUBCOMP) and
+	// then reuses every identifier it is done with for a NEW message
+	var reused []*zz9Msg
+	for _, m := range msgs {
+		if m.qos == 2 && !m.pubDone {
+			cerr := P2.c.pubrelHandler(&packets.Pubrel{FixHeader: &packets.FixHeader{PacketType: packets.PUBREL, Flags: 2}, PacketID: m.pid, Properties: &packets.Properties{}})
+			zzrt.Assert(cerr == nil, "pubrel-after-restart-accepted")
+			P2.drain()
+			gotComp := false
+			for _, p := range P2.wire {
+				if a, ok := p.(*packets.Pubcomp); ok && a.PacketID == m.pid {
+					gotComp = true
+				}
+			}
+			P2.wire = nil
+			zzrt.Assert(gotComp, "pubrel-after-restart-answered-with-pubcomp")
+		}
+	}
+	for _, m := range msgs {
+		if m.qos != 2 {
+			continue
+		}
+		nm := &zz9Msg{tag: nextTag, body: zzrt.Byte(), qos: 2, pid: m.pid, want: subs[0].acked && !subs[0].maybe, reuse: true}
+		nextTag++
+		cerr := P2.c.publishHandler(zz9Publish(packets.Version5, "a", 2, nm.pid, []byte{nm.body, nm.tag}, false))
+		zzrt.Assert(cerr == nil, "publish-with-a-released-identifier-accepted")
+		zzrt.Yield()
+		P2.c.pubrelHandler(&packets.Pubrel{FixHeader: &packets.FixHeader{PacketType: packets.PUBREL, Flags: 2}, PacketID: nm.pid, Properties: &packets.Properties{}})
+		P2.drain()
+		P2.wire = nil
+		nm.pubAck, nm.pubDone = true, true
+		reused = append(reused, nm)
+	}
 
 	// S comes back with Clean Start 0
 	if sessAck && !sessMaybe && !transient {
@@ -539,6 +580,12 @@ func ZZC09Broker() {
 				}
 			}
 			return
+		}
+		for _, m := range reused {
+			pubs, _ := count(m)
+			if m.want && sessAck && !sessMaybe {
+				zzrt.Assert(pubs == 1, "new-message-under-a-completed-identifier-is-delivered-after-restart")
+			}
 		}
 		for _, m := range msgs {
 			pubs, rels := count(m)
